@@ -394,7 +394,21 @@ def check_shared_base_histories(acc, spec, base, ndim):
                 untouched = (np.array_equal(P.points, p0[0]) and np.array_equal(P.weights, p0[1])
                              and np.array_equal(base.points, b0[0]) and np.array_equal(base.weights, b0[1]))
                 same = np.array_equal(sch.points, fresh[i].points) and np.array_equal(sch.weights, fresh[i].weights)
-                bad = None if (untouched and same) else ('constructor modified its argument' if not untouched else 'scheme differs from the one built on a fresh tensor scheme')
+                bad = None
+                if not (untouched and same):
+                    acc.count('shared-base-history-bitwise-changes')  # observation; the verdict is on the property clauses:
+                    # the tensor scheme that was handed in must still have weights summing to the measure and integrate the
+                    # coordinate functions, and the derived scheme must do so as well (where its stated degree allows)
+                    D = spec[3]
+                    wsP = float(np.sum(P.weights))
+                    if abs(wsP - 1.0) > TOL or (D >= 1 and any(abs(float(np.dot(P.points[c], P.weights)) - 0.5) > TOL for c in range(ndim))):
+                        bad = 'the tensor scheme passed to the constructor no longer preserves measure / first moments (sum of weights {!r})'.format(wsP)
+                    deg = stated_degree(sname, variant, D)
+                    wsS = float(np.sum(sch.weights))
+                    if bad is None and deg >= 0 and abs(wsS - 1.0) > TOL:
+                        bad = 'derived scheme built on a shared tensor scheme has weights summing to {!r}'.format(wsS)
+                    if bad is None and deg >= 1 and any(abs(float(np.dot(sch.points[c], sch.weights)) - 0.5) > TOL for c in range(ndim)):
+                        bad = 'derived scheme built on a shared tensor scheme does not integrate the coordinate functions'
             except Exception as ex:  # noqa
                 bad = 'raised {!r}'.format(ex)
             if bad:
